@@ -25,9 +25,9 @@ TNext ==
   \/ Is("PushFuncScope") /\ PushFunc
   \/ Is("PopFuncScope") /\ PopFunc
   \/ Is("Block") /\ Block
-  \/ Is("Declare") /\ Declare(Trace[l].s, Trace[l].v)
+  \/ Is("Declare") /\ Declare(Trace[l].s, Trace[l].v) /\ TopSize' = Trace[l].n      \* logged: size of the scope
   \/ Is("Update") /\ Update(Trace[l].s, Trace[l].v)
-  \/ Is("Get") /\ Get(Trace[l].s, Trace[l].v)
+  \/ Is("Get") /\ Get(Trace[l].s, Trace[l].v) /\ Distance(Trace[l].s) = Trace[l].n   \* logged: where it was found
   \/ Is("End") /\ End
   \/ Is("Cut") /\ UNCHANGED svars                       \* the recording was cut short: nothing is demanded
   \/ Is("Reset") /\ g' = <<>> /\ loc' = <<>> /\ saved' = <<>>
